@@ -21,14 +21,13 @@ Traces == ndJsonDeserialize(IOEnv.TRACE_FILE)
 NT == Len(Traces)
 ASSUME \A i \in 1..NT : TLCSet(i, 0)
 
-VARIABLES tid, l, st
+VARIABLES tid, l, st, G           \* G: the completed geometry record of trace tid (constant along a trace)
 T  == Traces[tid]
 Ev == T.ev[l]
-G  == T.g
 ToSet(s) == {s[i] : i \in DOMAIN s}
 
-TraceOK(t) == /\ WellFormed(t.g)
-              /\ t.obs = "sampled" \/ ObsGetKeys(Full(t.g)) \subseteq ToSet(t.gkeys)
+TraceOK(t) == /\ WellFormedBasic(t.g)
+              /\ t.obs = "sampled" \/ ObsGetKeys(Complete(t.g).full) \subseteq ToSet(t.gkeys)
               /\ \A i \in DOMAIN t.ev : t.ev[i].op = "dump" => IsBlock(t.g, t.ev[i].val)
 
 Apply(e, s) ==
@@ -50,21 +49,22 @@ Diagnose(e, r) ==
     /\ DiagOne("ta_true", x.ta_true, e.o.ta_true)
     /\ DiagOne("ta_false", x.ta_false, e.o.ta_false)
     /\ DiagOne("mask", x.mask, e.o.mask)
-    /\ DiagSeq("ml", x.ml, e.o.ml)
+    /\ DiagOne("ml", x.ml, e.o.ml)
     /\ DiagSeq("has", x.has, e.o.has)
     /\ DiagSeq("gfi", x.gfi, e.o.gfi)
 
 Init == /\ tid \in 1..NT /\ l = 1
         /\ TraceOK(T) \/ PrintT(<<"BADTRACE", tid, 0>>)
-        /\ st = NewState(G)
+        /\ G = Complete(T.g)
+        /\ st = NewState(T.g)
 
 Step == /\ l <= Len(T.ev)
         /\ LET r == Apply(Ev, st) IN
               /\ IF Diag THEN Diagnose(Ev, r) ELSE Matches(Ev, r)
               /\ st' = r.st
-        /\ l' = l + 1 /\ UNCHANGED tid
+        /\ l' = l + 1 /\ UNCHANGED <<tid, G>>
 
-Spec == Init /\ [][Step]_<<tid, l, st>>
+Spec == Init /\ [][Step]_<<tid, l, st, G>>
 
 Track == IF l > TLCGet(tid) THEN TLCSet(tid, l) ELSE TRUE
 InvWellFormed == DOMAIN st.w = IndexSet(G.shape) /\ \A p \in DOMAIN st.w : st.w[p] = Missing \/ IsBlock(G, st.w[p])
